@@ -3,12 +3,12 @@ CONSTANTS
   N = 3
   NoNode = 0
   Spurious = FALSE
-  EarlyQuit = FALSE
-  MayIgnoreFlag = FALSE
-  Mutant = "nolastquit"
-  MaxNodes = 3
+  EarlyQuit = TRUE
+  MayIgnoreFlag = TRUE
+  Mutant = "none"
+  MaxNodes = 4
   WithQuit = TRUE
-  WithErr = FALSE
-  WithSkip = FALSE
+  WithErr = TRUE
+  WithSkip = TRUE
 INVARIANT Safety
 PROPERTY Term
